@@ -9,6 +9,8 @@ Theorems about the model (`Model/ModRing.lean`, `ICfg.initInt`, tied to /repo by
 convert and the floating/Integer sources are tied to the exact specification by correspondence.
 -/
 import GivaroModel.Lemmas.ModRingFloat
+import GivaroModel.Model.ModRingInit
+import GivaroModel.Lemmas.ModRingLog16
 namespace Givaro.Props.C04
 open Givaro.Model.ModRing Givaro.Spec.ModRing
 
@@ -200,5 +202,443 @@ theorem constants_are_images (k : ICfg) (hv : k.valid) (p : Int) (hp : 2 ≤ p) 
   refine ⟨by simp, (Int.emod_eq_of_lt (by omega) (by omega)).symm, ?_⟩
   exact (emod_unique (by omega) (by omega) (-1) (by ring)).symm
 example : (ICfg.mk 8 false 16).mOne 255 = 254 := by decide
+
+/-! ## integral rings: `Integer` and floating sources -/
+
+/-- init from an `Integer` of any size and either sign -/
+theorem init_integer_canonical (k : ICfg) (hv : k.valid) (p y : Int) (hp : 2 ≤ p) (hm : p ≤ k.maxCard) :
+    k.initZ p y = canonU p y := by
+  have ok := iok_of_valid k hv p hp hm
+  unfold ICfg.initZ canonU
+  exact ok.toE_id _ (Int.emod_nonneg _ (by omega)) (Int.le_of_lt (Int.emod_lt_of_pos _ (by omega)))
+
+/-- init from a finite `float` / `double` `y`, `t = trunc(y)` (so `t = y` for an integer-valued source, `±0 ↦ 0`,
+    any magnitude: below 2^63 through `int64_t`, beyond through `Integer`): the canonical image of `t`.
+    (For a non-integer `y` the code truncates toward zero; a non-finite `y` gives `zero`.) -/
+theorem init_float_canonical (k : ICfg) (hv : k.valid) (p t : Int) (hp : 2 ≤ p) (hm : p ≤ k.maxCard) :
+    k.initFloat p t = canonU p t := by
+  unfold ICfg.initFloat
+  split
+  · next h =>
+    exact (init_canonical k hv 64 (by unfold SrcW; decide) true p t hp hm (by unfold InSrc; simp only [if_true]; norm_num at h ⊢; omega)).1
+  · exact init_integer_canonical k hv p t hp hm
+example : (ICfg.mk 8 true 8).initFloat 13 (-(2 ^ 100)) = canonU 13 (-(2 ^ 100)) := by decide
+
+/-- the constants of a ring object that was ASSIGNED from another ring (`operator=`, also onto a
+    default-constructed object) are the images of 0, 1, −1 modulo the NEW modulus -/
+theorem constants_after_assign (k : ICfg) (hv : k.valid) (a : ICfg.Obj) (p : Int) (hp : 2 ≤ p) (hm : p ≤ k.maxCard) :
+    (k.assign a (k.construct p)).zero = canonU p 0 ∧ (k.assign a (k.construct p)).one = canonU p 1
+      ∧ (k.assign a (k.construct p)).mOne = canonU p (-1) ∧ (k.assign a (k.construct p)).p = p := by
+  obtain ⟨h0, h1, h2⟩ := constants_are_images k hv p hp hm
+  have ok := iok_of_valid k hv p hp hm
+  refine ⟨h0, h1, h2, ?_⟩
+  show k.toR p = p
+  obtain ⟨s, sg, c⟩ := k
+  simp only [ICfg.valid] at hv
+  rcases hv with ⟨h1 | h1 | h1 | h1, h2 | h2⟩ <;> subst h1 <;> subst h2 <;> cases sg <;>
+    simp only [ICfg.maxCard] at hm <;> norm_num at hm <;>
+    simp only [ICfg.toR, wrapUw] <;> norm_num <;> omega
+example : (ICfg.mk 32 true 32).assign (ICfg.mk 32 true 32).default ((ICfg.mk 32 true 32).construct 101) = ⟨0, 1, 100, 101⟩ := by decide
+
+/-! ## `Modular<float>`, `Modular<double>`, `Modular<float,double>` -/
+
+/-- what the init overloads need from a floating configuration and a modulus -/
+structure FInitOk (k : FCfg) (p : Int) : Prop where
+  fS_id : ∀ x, -p ≤ x → x ≤ p → k.fS x = some x
+  p32 : p < (2 : Int) ^ 32
+  small : ∀ x, -((2 : Int) ^ k.ms) ≤ x → x ≤ (2 : Int) ^ k.ms → k.fS x = some x
+
+theorem finitok_of_valid (k : FCfg) (hv : k.valid) (p : Int) (hm : p ≤ k.maxCard) : FInitOk k p := by
+  obtain ⟨ms, mc⟩ := k
+  simp only [FCfg.valid] at hv
+  rcases hv with ⟨h1, h2⟩ | ⟨h1, h2⟩ | ⟨h1, h2⟩ <;> subst h1 <;> subst h2 <;>
+    simp only [FCfg.maxCard] at hm <;> norm_num at hm <;>
+    (refine ⟨?_, ?_, ?_⟩
+     · intro x hx0 hx1; simp only [FCfg.fS]; apply fit_some <;> norm_num <;> omega
+     · norm_num; omega
+     · intro x hx0 hx1; simp only [FCfg.fS]; exact fit_some hx0 hx1)
+
+section floatInit
+variable (k : FCfg) (hv : k.valid) (p : Int) (hp : 2 ≤ p) (hm : p ≤ k.maxCard)
+include hv hp hm
+
+theorem fneg (r : Int) (hr : isCanonU p r) : k.neg p r = some (canonU p (-r)) := by
+  have ok := finitok_of_valid k hv p hm
+  unfold isCanonU at hr
+  unfold FCfg.neg canonU
+  rw [neg_emod_eq r p (by omega), Int.emod_eq_of_lt hr.1 hr.2]
+  split
+  · rfl
+  · exact ok.fS_id _ (by omega) (by omega)
+
+/-- reduce(x) for ANY integer-valued `x` of the element type (any magnitude: `fmod` is exact) -/
+theorem float_reduce_exact (y : Int) : k.reduce p y = some (canonU p y) := by
+  have ok := finitok_of_valid k hv p hm
+  obtain ⟨hc, h0, h1, h2⟩ := tmod_cases y p (by omega)
+  have ht : Int.tmod y p < p := by rcases hc with h | h <;> omega
+  have hf := tmod_fix y p (by omega)
+  unfold FCfg.reduce canonU
+  simp only
+  split
+  · next hneg => rw [if_pos hneg] at hf; rw [hf]; exact ok.fS_id _ (by omega) (by omega)
+  · next hneg => rw [if_neg hneg] at hf; rw [hf]
+
+/-- signed 32/64-bit sources (the overload for `sizeof(Source) ≥ sizeof(Storage_t)`), the minimum included:
+    reduced in integer arithmetic BEFORE the conversion to the element type, so values beyond 2^24 / 2^53 are exact -/
+theorem float_init_sint_exact (w : Nat) (hw : w = 32 ∨ w = 64) (a : Int)
+    (ha : -((2 : Int) ^ (w - 1)) ≤ a ∧ a < (2 : Int) ^ (w - 1)) :
+    k.initSInt w p a = some (canonU p a) := by
+  have ok := finitok_of_valid k hv p hm
+  have hsrc : wrapUw w p = p ∧ (0 ≤ a → wrapUw w a = a) ∧ (a < 0 → wrapUw w (ICfg.arUSrc w (0 - wrapUw w a)) = -a) := by
+    have := ok.p32
+    rcases hw with h | h <;> subst h <;> norm_num at ha this ⊢ <;>
+      simp only [ICfg.arUSrc, wrapUw] <;> norm_num <;> (refine ⟨?_, ?_, ?_⟩ <;> omega)
+  obtain ⟨hpw, hy0, hyn⟩ := hsrc
+  unfold FCfg.initSInt
+  have hua : (if a < 0 then wrapUw w (ICfg.arUSrc w (0 - wrapUw w a)) else wrapUw w a) = if a < 0 then -a else a := by
+    split
+    · next h => exact hyn h
+    · next h => exact hy0 (by omega)
+  simp only [hua, hpw]
+  by_cases hneg : a < 0
+  · simp only [if_pos hneg]
+    have h0 := Int.emod_nonneg (-a) (by omega : p ≠ 0)
+    have h1 := Int.emod_lt_of_pos (-a) (by omega : 0 < p)
+    rw [Int.tmod_eq_emod_of_nonneg (by omega), ok.fS_id _ (by omega) (by omega)]
+    simp only [Option.bind_eq_bind, Option.bind_some]
+    rw [fneg k hv p hp hm _ ⟨h0, h1⟩]
+    unfold canonU
+    have h := Int.emod_add_mul_ediv (-a) p
+    have e : -((-a) % p) = a + p * ((-a) / p) := by linarith
+    rw [e, Int.add_mul_emod_self_left]
+  · simp only [if_neg hneg]
+    have ha0 : 0 ≤ a := by omega
+    have h0 := Int.emod_nonneg a (by omega : p ≠ 0)
+    have h1 := Int.emod_lt_of_pos a (by omega : 0 < p)
+    rw [Int.tmod_eq_emod_of_nonneg ha0, ok.fS_id _ (by omega) (by omega)]
+    rfl
+
+theorem float_init_uint_exact (w : Nat) (hw : w = 32 ∨ w = 64) (a : Int) (ha : 0 ≤ a) :
+    k.initUInt w p a = some (canonU p a) := by
+  have ok := finitok_of_valid k hv p hm
+  have hpw : wrapUw w p = p := by
+    have := ok.p32
+    rcases hw with h | h <;> subst h <;> norm_num at this ⊢ <;> simp only [wrapUw] <;> norm_num <;> omega
+  unfold FCfg.initUInt canonU
+  rw [hpw, Int.tmod_eq_emod_of_nonneg ha]
+  exact ok.fS_id _ (by have := Int.emod_nonneg a (by omega : p ≠ 0); omega) (Int.le_of_lt (Int.emod_lt_of_pos _ (by omega)))
+
+/-- `Integer` source, any size and sign -/
+theorem float_init_integer_exact (a : Int) : k.initZ p a = some (canonU p a) := by
+  have ok := finitok_of_valid k hv p hm
+  obtain ⟨hc, h0, h1, h2⟩ := tmod_cases a p (by omega)
+  have ht : Int.tmod a p < p := by rcases hc with h | h <;> omega
+  have hf := tmod_fix a p (by omega)
+  unfold FCfg.initZ canonU
+  rw [ok.fS_id _ (by omega) (by omega)]
+  simp only [Option.bind_eq_bind, Option.bind_some]
+  split
+  · next hneg => rw [if_pos hneg] at hf; rw [hf]; exact ok.fS_id _ (by omega) (by omega)
+  · next hneg => rw [if_neg hneg] at hf; rw [hf]; rfl
+
+/-- every finite integer-valued `float` / `double` source, of any magnitude -/
+theorem float_init_float_exact (y : Int) : k.initFloat p y = some (canonU p y) :=
+  float_reduce_exact k hv p hp hm y
+
+/-- machine integers narrower than the storage type: the conversion to the element type is exact for them -/
+theorem float_init_small_exact (a : Int) (ha : -((2 : Int) ^ k.ms) ≤ a ∧ a ≤ (2 : Int) ^ k.ms) :
+    k.initSmall p a = some (canonU p a) := by
+  have ok := finitok_of_valid k hv p hm
+  unfold FCfg.initSmall
+  rw [ok.small a ha.1 ha.2]
+  simp only [Option.bind_eq_bind, Option.bind_some]
+  exact float_reduce_exact k hv p hp hm a
+
+/-- convert ∘ init ≡ id (mod p), init ∘ convert = id, and the constants -/
+theorem float_roundtrip_constants (e : Int) (he : isCanonU p e) :
+    k.initFloat p (k.convert e) = some e ∧ k.initZ p (k.convert e) = some e
+      ∧ k.mOne p = some (canonU p (-1)) := by
+  have ok := finitok_of_valid k hv p hm
+  refine ⟨?_, ?_, ?_⟩
+  · rw [float_init_float_exact k hv p hp hm]; unfold FCfg.convert canonU; rw [Int.emod_eq_of_lt he.1 he.2]
+  · rw [float_init_integer_exact k hv p hp hm]; unfold FCfg.convert canonU; rw [Int.emod_eq_of_lt he.1 he.2]
+  · unfold FCfg.mOne canonU
+    rw [ok.fS_id _ (by omega) (by omega)]
+    congr 1
+    exact (emod_unique (by omega) (by omega) (-1) (by ring)).symm
+
+end floatInit
+example : (FCfg.mk 53 53).initSInt 64 94906266 (-9223372036854775808) = some (canonU 94906266 (-9223372036854775808)) := by decide
+example : (FCfg.mk 24 24).initFloat 4096 (2 ^ 100) = some 0 ∧ (FCfg.mk 24 24).initUInt 64 4093 18446744073709551615 = some (canonU 4093 18446744073709551615) := by decide
+
+/-! ## `ModularBalanced<float|double>` -/
+
+section balancedInit
+variable (k : BFCfg) (hv : k.valid) (p : Int) (hp : 3 ≤ p) (hm : p ≤ k.maxCard)
+include hv hp hm
+
+theorem bf_fit (x : Int) (h0 : -p ≤ x) (h1 : x ≤ p) : k.f x = some x := by
+  obtain ⟨mb⟩ := k
+  simp only [BFCfg.valid] at hv
+  rcases hv with h1' | h1' <;> subst h1' <;> simp only [BFCfg.maxCard] at hm <;> norm_num at hm <;>
+    simp only [BFCfg.f] <;> apply fit_some <;> norm_num <;> omega
+
+/-- signed machine integers with an overload, `Integer`, every floating source: `%` / `fmod`, NORMALISE -/
+theorem balanced_init_signed_exact (y : Int) : k.initS p y = some (canonB p y) := by
+  unfold BFCfg.initS
+  rw [normB_tmod y p (by omega)]
+  have hc := Givaro.Model.ModRing.canonB_isCanon p y (by omega)
+  unfold isCanonB at hc
+  exact bf_fit k hv p hp hm _ (by omega) (by omega)
+
+/-- unsigned machine integers with an overload: `%`, NORMALISE_HI -/
+theorem balanced_init_unsigned_exact (y : Int) (hy : 0 ≤ y) : k.initU p y = some (canonB p y) := by
+  unfold BFCfg.initU
+  simp only
+  rw [Int.tmod_eq_emod_of_nonneg hy]
+  have hc := Givaro.Model.ModRing.canonB_isCanon p y (by omega)
+  unfold isCanonB at hc
+  unfold canonB at hc ⊢
+  exact bf_fit k hv p hp hm _ (by omega) (by omega)
+
+/-- the template (narrow machine integers): exact conversion, then reduce -/
+theorem balanced_init_small_exact (a : Int) (ha : -p ≤ a ∧ a ≤ p ∨ k.f a = some a) : k.initSmall p a = some (canonB p a) := by
+  have hfa : k.f a = some a := by
+    rcases ha with h | h
+    · exact bf_fit k hv p hp hm a h.1 h.2
+    · exact h
+  unfold BFCfg.initSmall
+  rw [hfa]
+  simp only [Option.bind_eq_bind, Option.bind_some]
+  exact balanced_init_signed_exact k hv p hp hm a
+
+theorem balanced_roundtrip (e : Int) (he : isCanonB p e) : k.initS p (k.convert e) = some e := by
+  rw [balanced_init_signed_exact k hv p hp hm]
+  congr 1
+  unfold BFCfg.convert
+  unfold isCanonB at he
+  exact canonB_unique (by omega) (by unfold isCanonB; omega) 0 (by ring)
+
+end balancedInit
+example : (BFCfg.mk 24).initU 8191 4294967295 = some (canonB 8191 4294967295) := by decide
+
+/-! ## `ModularBalanced<int32_t|int64_t>` -/
+
+section balancedIntInit
+variable (k : BICfg) (hv : k.valid) (p : Int) (hp : 3 ≤ p) (hm : p ≤ k.maxCard)
+include hv hp hm
+
+theorem bi_wr (x : Int) (h0 : -p ≤ x) (h1 : x ≤ p) : k.wr x = x := by
+  obtain ⟨w⟩ := k
+  simp only [BICfg.valid] at hv
+  rcases hv with h | h <;> subst h <;> simp only [BICfg.maxCard] at hm <;> norm_num at hm <;>
+    simp only [BICfg.wr, wrapSw] <;> norm_num <;> omega
+
+theorem balanced_int_init_signed_exact (y : Int) : k.initS p y = canonB p y := by
+  obtain ⟨hc, h0, h1, h2⟩ := tmod_cases y p (by omega)
+  have ht : Int.tmod y p < p := by rcases hc with h | h <;> omega
+  unfold BICfg.initS
+  rw [bi_wr k hv p hp hm _ (by omega) (by omega)]
+  exact normB_tmod y p (by omega)
+
+theorem balanced_int_init_unsigned_exact (y : Int) (hy : 0 ≤ y) : k.initU p y = canonB p y := by
+  have h0 := Int.emod_nonneg y (by omega : p ≠ 0)
+  have h1 := Int.emod_lt_of_pos y (by omega : 0 < p)
+  unfold BICfg.initU canonB
+  simp only
+  rw [Int.tmod_eq_emod_of_nonneg hy, bi_wr k hv p hp hm _ (by omega) (by omega)]
+
+/-- the template, for a source value the element type holds -/
+theorem balanced_int_init_small_exact (a : Int) (ha : k.wr a = a) : k.initSmall p a = canonB p a := by
+  unfold BICfg.initSmall BICfg.reduce
+  rw [ha]
+  exact normB_tmod a p (by omega)
+
+end balancedIntInit
+example : (BICfg.mk 64).initU 6074000999 18446744073709551615 = canonB 6074000999 18446744073709551615 := by decide
+
+/-! ## `ModularExtended<float|double>` -/
+
+section extendedInit
+variable (k : ECfg) (hv : k.valid) (p : Int) (hp : 2 ≤ p) (hm : p ≤ k.maxCard)
+include hv hp hm
+
+theorem ext_f (x : Int) (h0 : -p ≤ x) (h1 : x ≤ p) : k.f x = some x := by
+  obtain ⟨m⟩ := k
+  simp only [ECfg.valid] at hv
+  rcases hv with h | h <;> subst h <;> simp only [ECfg.maxCard] at hm <;> norm_num at hm <;>
+    simp only [ECfg.f] <;> apply fit_some <;> norm_num <;> omega
+
+theorem extended_init_uint_integer_float_exact (y : Int) :
+    (0 ≤ y → k.initUInt p y = some (canonU p y)) ∧ k.initZ p y = some (canonU p y)
+      ∧ k.initFloat p y = some (canonU p y) := by
+  have hf := fun x h0 h1 => ext_f k hv p hp hm x h0 h1
+  have h0 := Int.emod_nonneg y (by omega : p ≠ 0)
+  have h1 := Int.emod_lt_of_pos y (by omega : 0 < p)
+  refine ⟨?_, ?_, ?_⟩
+  · intro hy
+    unfold ECfg.initUInt canonU
+    rw [Int.tmod_eq_emod_of_nonneg hy]; exact hf _ (by omega) (by omega)
+  · unfold ECfg.initZ canonU; exact hf _ (by omega) (by omega)
+  · obtain ⟨hc, _, _, h2⟩ := tmod_cases y p (by omega)
+    have ht : Int.tmod y p < p := by rcases hc with h | h <;> omega
+    have hfx := tmod_fix y p (by omega)
+    unfold ECfg.initFloat canonU
+    simp only
+    split
+    · next hneg => rw [if_pos hneg] at hfx; rw [hfx]; exact hf _ (by omega) (by omega)
+    · next hneg => rw [if_neg hneg] at hfx; rw [← hfx]; exact hf _ (by omega) (by omega)
+
+/-- signed 32/64-bit sources, the minimum included -/
+theorem extended_init_sint_exact (w : Nat) (hw : w = 32 ∨ w = 64) (a : Int)
+    (ha : -((2 : Int) ^ (w - 1)) ≤ a ∧ a < (2 : Int) ^ (w - 1)) :
+    k.initSInt w p a = some (canonU p a) := by
+  have hf := fun x h0 h1 => ext_f k hv p hp hm x h0 h1
+  have hsrc : (0 ≤ a → wrapUw w a = a) ∧ (a < 0 → wrapUw w (0 - wrapUw w a) = -a) := by
+    rcases hw with h | h <;> subst h <;> norm_num at ha ⊢ <;> simp only [wrapUw] <;> norm_num <;> (refine ⟨?_, ?_⟩ <;> omega)
+  unfold ECfg.initSInt
+  have hua : (if a < 0 then wrapUw w (0 - wrapUw w a) else wrapUw w a) = if a < 0 then -a else a := by
+    split
+    · next h => exact hsrc.2 h
+    · next h => exact hsrc.1 (by omega)
+  simp only [hua]
+  by_cases hneg : a < 0
+  · simp only [if_pos hneg]
+    have h0 := Int.emod_nonneg (-a) (by omega : p ≠ 0)
+    have h1 := Int.emod_lt_of_pos (-a) (by omega : 0 < p)
+    rw [Int.tmod_eq_emod_of_nonneg (by omega), hf _ (by omega) (by omega)]
+    simp only [Option.bind_eq_bind, Option.bind_some]
+    unfold ECfg.neg canonU
+    simp only
+    have hd := Int.emod_add_mul_ediv (-a) p
+    split
+    · rw [hf _ (by omega) (by omega)]; congr 1
+      exact (emod_unique (by omega) (by omega) (-((-a) / p) - 1) (by linarith)).symm
+    · congr 1
+      have hz : (-a) % p = 0 := by omega
+      rw [hz] at hd ⊢
+      exact (emod_unique (by omega) (by omega) (-((-a) / p)) (by linarith)).symm
+  · simp only [if_neg hneg]
+    have ha0 : 0 ≤ a := by omega
+    have h0 := Int.emod_nonneg a (by omega : p ≠ 0)
+    have h1 := Int.emod_lt_of_pos a (by omega : 0 < p)
+    rw [Int.tmod_eq_emod_of_nonneg ha0, hf _ (by omega) (by omega)]
+    rfl
+
+end extendedInit
+example : (ECfg.mk 53).initSInt 64 1125899906842623 (-9223372036854775808) = some (canonU 1125899906842623 (-9223372036854775808)) := by decide
+
+/-! ## `Modular<Integer>` -/
+theorem integer_init_exact (p a : Int) (hp : 2 ≤ p) : ZMod'.init p a = canonU p a := by
+  unfold ZMod'.init ZMod'.reduce canonU
+  simp only
+  exact tmod_fix a p (by omega)
+
+/-! ## `Modular<Log16>`: init on the table model, for any valid generator chain -/
+
+theorem log16_val_log (T : L16) (h : T.Valid) (r : Int) (hr : 0 ≤ r ∧ r < T.p) :
+    T.okR (T.log r) ∧ T.val (T.log r) = r := by
+  have hp := h.p2
+  have hMd : T.M = T.p - 1 := rfl
+  by_cases h0 : r = 0
+  · subst h0; rw [h.log0]; exact ⟨Or.inr rfl, L16.val_Z h⟩
+  · obtain ⟨t0, t1, ht⟩ := h.explog r (by omega) hr.2
+    refine ⟨Or.inl ⟨t0, t1⟩, ?_⟩
+    unfold L16.val; rw [if_neg (by omega), ht]
+
+/-- init from unsigned machine integers -/
+theorem log16_init_unsigned_exact (T : L16) (h : T.Valid) (a : Int) (ha : 0 ≤ a) :
+    T.okR (T.initU a) ∧ T.val (T.initU a) = canonU T.p a := by
+  have hp := h.p2
+  have e : (if a ≥ T.p then a % T.p else a) = a % T.p := by
+    split
+    · rfl
+    · exact (Int.emod_eq_of_lt ha (by omega)).symm
+  unfold L16.initU canonU
+  rw [e]
+  exact log16_val_log T h _ ⟨Int.emod_nonneg _ (by omega), Int.emod_lt_of_pos _ (by omega)⟩
+
+/-- init from signed machine integers (the `int64_t` body; `int32_t`, `int16_t`, `double` after `fmod`, `float` forward to it),
+    the minimum included -/
+theorem log16_init_signed_exact (T : L16) (h : T.Valid) (a : Int)
+    (ha : -((2 : Int) ^ 63) ≤ a ∧ a < (2 : Int) ^ 63) :
+    T.okR (T.initS a) ∧ T.val (T.initS a) = canonU T.p a := by
+  have hp := h.p2
+  have hua : wrapUw 64 (if a < 0 then wrapUw 64 (0 - wrapUw 64 a) else a) = if a < 0 then -a else a := by
+    unfold wrapUw; norm_num at ha ⊢
+    split <;> omega
+  unfold L16.initS canonU
+  simp only [hua]
+  have hr : ∀ x : Int, 0 ≤ x → (if x ≥ T.p then x % T.p else x) = x % T.p := by
+    intro x hx
+    split
+    · rfl
+    · exact (Int.emod_eq_of_lt hx (by omega)).symm
+  by_cases hneg : a < 0
+  · simp only [if_pos hneg]
+    rw [hr (-a) (by omega)]
+    have h0 := Int.emod_nonneg (-a) (by omega : T.p ≠ 0)
+    have h1 := Int.emod_lt_of_pos (-a) (by omega : 0 < T.p)
+    have e := neg_emod_eq (-a) T.p (by omega)
+    rw [Int.neg_neg] at e
+    have hif : (if a < 0 ∧ (-a) % T.p ≠ 0 then T.p - (-a) % T.p else (-a) % T.p) = a % T.p := by
+      rw [e]
+      by_cases hz : (-a) % T.p = 0
+      · rw [if_neg (by intro hh; exact hh.2 hz), if_pos hz, hz]
+      · rw [if_pos ⟨hneg, hz⟩, if_neg hz]
+    rw [hif]
+    exact log16_val_log T h _ ⟨Int.emod_nonneg _ (by omega), Int.emod_lt_of_pos _ (by omega)⟩
+  · simp only [if_neg hneg]
+    rw [hr a (by omega)]
+    have hif : (if a < 0 ∧ a % T.p ≠ 0 then T.p - a % T.p else a % T.p) = a % T.p := by
+      rw [if_neg (by intro hh; exact hneg hh.1)]
+    rw [hif]
+    exact log16_val_log T h _ ⟨Int.emod_nonneg _ (by omega), Int.emod_lt_of_pos _ (by omega)⟩
+
+/-- init from an `Integer` of any size and sign -/
+theorem log16_init_integer_exact (T : L16) (h : T.Valid) (a : Int) :
+    T.okR (T.initZ a) ∧ T.val (T.initZ a) = canonU T.p a := by
+  have hp := h.p2
+  unfold L16.initZ canonU
+  split
+  · next hneg =>
+    simp only
+    have htr : (if a ≤ -T.p then (-a) % T.p else -a) = (-a) % T.p := by
+      split
+      · rfl
+      · exact (Int.emod_eq_of_lt (by omega) (by omega)).symm
+    rw [htr]
+    have h0 := Int.emod_nonneg (-a) (by omega : T.p ≠ 0)
+    have h1 := Int.emod_lt_of_pos (-a) (by omega : 0 < T.p)
+    have e := neg_emod_eq (-a) T.p (by omega)
+    rw [Int.neg_neg] at e
+    split
+    · next hne =>
+      rw [e, if_neg hne]
+      exact log16_val_log T h _ ⟨by omega, by omega⟩
+    · next hz =>
+      simp only [ne_eq, not_not] at hz
+      rw [e, if_pos hz]
+      exact ⟨Or.inr rfl, L16.val_Z h⟩
+  · next hnn =>
+    have e : (if a ≥ T.p then a % T.p else a) = a % T.p := by
+      split
+      · rfl
+      · exact (Int.emod_eq_of_lt (by omega) (by omega)).symm
+    rw [e]
+    exact log16_val_log T h _ ⟨Int.emod_nonneg _ (by omega), Int.emod_lt_of_pos _ (by omega)⟩
+
+/-- `convert(init x) = x mod p` and `init(convert e)` denotes the same element -/
+theorem log16_convert_init (T : L16) (h : T.Valid) (e : Int) (he : T.okR e) :
+    T.val (T.initU (T.val e)) = T.val e := by
+  have hp := h.p2
+  have hMd : T.M = T.p - 1 := rfl
+  have hv : 0 ≤ T.val e ∧ T.val e < T.p := by
+    rcases he with he | he
+    · rw [L16.val_nonzero h he.1 he.2]; have := L16.expm_range h e; omega
+    · rw [he, L16.val_Z h]; omega
+  rw [(log16_init_unsigned_exact T h _ hv.1).2]
+  exact Int.emod_eq_of_lt hv.1 hv.2
+
 
 end Givaro.Props.C04
